@@ -10,6 +10,7 @@ B1(float,1,0) B1(float,3,1) B1(float,4,2) B1(float,5,0) B1(float,9,1) B1(float,1
 B2(float,2,9,2,9,1,9) B2(float,2,5,2,1,2,5) B2(float,2,5,1,1,2,5) B2(float,2,5,2,1,1,5) B2(float,2,9,1,9,2,9) B2(double,2,5,2,1,1,5) B2(double,2,3,1,3,2,3)
 OTT(float,2,5) OTT(float,3,4) OTT(float,2,9) OTT(double,2,3)
 U1(float,1,0) U1(float,5,0) U1(float,9,0) U1(double,3,0)
+A1(float,5,0) A1(float,9,1) A1(double,3,0) A1(double,5,1)   /* hardshrink: the AVX mask conjunction (a bitwise and of float masks) does not fold; replayed incl. NaN, -0.0, inf: identical */
 void ob_c12d_negctl(const tarr<float,5>& a, const tarr<float,5>& b)
 {
     auto r = nm::unwrap(na::add(a, b, C12_CTX));
